@@ -9,10 +9,13 @@
                 <nF> <failing broker>*  @ <nD> <topic>* <nU> { <topic> <partition> <offset> <count> }
               (the part after @ is what the REAL cluster module sent in this cycle, used by the Go probe only)
             | S <cluster> <grouphex> <order 0|1>      two status requests: 0 = full view then problems-only view, 1 = the reverse
+            | L <cluster>                             the consumer list of the cluster (StorageFetchConsumers on the composed
+                                                      machine's storage state; what GET /v3/kafka/<cluster>/consumer serves)
    <allow>/<deny> index the pattern pool (0 = not set), names are hex ("-" = empty); topic ids n of the cluster tables are
    the names "t<n>".
 
-   output: the answers of the S events joined by " | "; "DIED" when the model says the process dies.
+   output: the answers of the S and L events joined by " | "; "DIED" when the model says the process dies.
+     list   := L NIL | L <n> <grouphex>*   (sorted)
      answer := <F|P> NF
              | <F|P> <status> <complete bits> <total partitions> <total lag> M <topic:partition:lag | T:lag | -> P <n> { part }
      part := <topichex>:<partition>:<status>:<lag>:<complete bits>:<ownerhex>:<clienthex>:<start>:<end>
@@ -203,6 +206,17 @@ let run (line : string) : string =
           out := fmt_status "P" f p :: !out;
           out := fmt_status "F" f f :: !out
         end
+      | "L" ->
+        let c = next_z t in
+        (match Model.step cf (!ps).p_now (!ps).p_storage (FetchConsumers c) with
+         | Crashed -> raise Died
+         | Done (st', rep) ->
+           ps := { !ps with p_storage = st' };
+           (match rep with
+            | RStrings l ->
+              let names = List.sort compare (List.map unname l) in
+              out := cat (["L"; string_of_int (List.length names)] @ List.map (fun s -> hex_of_bytes (bytes_of_string s)) names) :: !out
+            | _ -> out := "L NIL" :: !out))
       | k -> failwith ("drv_pipeline: unknown event " ^ k)
     done
   with Died -> out := "DIED" :: !out);
